@@ -403,6 +403,14 @@ BB = dict(bb_ok=True, bb_srcs=["crypto/crypto_entropy.c"], bb_fresh=True)
 
 
 def components(ctx):
+    comps = _components(ctx)
+    for c in comps:
+        if c.name == "drbgbig":
+            c.first_limit_min = 900     # the 10x search of the quick tier runs the 2^32 case too: 140 s on a quiet machine, not 300 s under load
+    return comps
+
+
+def _components(ctx):
     return [vlib.Component(
         "osent", "h_osent.c", ["util/entropy.c", "util/warnp.c"], ["osent"], gen_osent,
         nontrivial=lambda c: any(",c" in o or " c" in o for o in c),
